@@ -98,7 +98,8 @@ func newWHist(sink *Sink, rng *rand.Rand, scratch, prop string, c wCfg) *wHist {
 		h.w.newWallet(h.w.mints[hm])
 		ws = append(ws, A(int64(hm)))
 	}
-	h.cfg = L(LL(ms), LL(ws))
+	proj := map[string]int64{"C08": 0, "C17": 1, "C19": 2}[prop]
+	h.cfg = L(LL(ms), LL(ws), A(proj))
 	h.w.scanned = len(h.w.reqs) // set-up traffic (keys) is scanned as well, below
 	h.w.scanned = 0
 	h.scanRequests("setup")
@@ -134,6 +135,9 @@ func (h *wHist) walletS(wl *wWal) S {
 	if wl.W == nil {
 		return L(A(-1))
 	}
+	if wl.blur && !wl.broken {
+		return L(A(-3))
+	}
 	w := h.w
 	byMint := wl.W.GetBalanceByMints()
 	var bm, cs []S
@@ -153,9 +157,9 @@ func (h *wHist) walletS(wl *wWal) S {
 					c = int64(k.Counter)
 				}
 			}
-			if id != active && c >= 0 {
-				// no output is ever derived on an inactive keyset again; its stored counter is
-				// watched by the monitor (stored-counter-decreased) but not compared with the model
+			if id != active && c >= 0 && h.prop != "C19" {
+				// no output is ever derived on an inactive keyset again: its stored counter is
+				// C19's observable only (so that a counter defect shows in C19's stream only)
 				c = -2
 			}
 			row = append(row, A(c))
@@ -647,8 +651,13 @@ func (h *wHist) finishOp(kind string, op S, wl *wWal, out wOutcome, random bool)
 	h.cause = meltCause(out)
 	h.after(kind, wl, out, random)
 	if out.crashed {
+		// cut inside (or right after) a loop of DeleteProof calls: the order of the calls is the order of
+		// the selected proofs, for an inactive keyset the key order of the bucket - what is left in the
+		// store is not determined by the abstract history; the wallet is not compared until it is restored
+		wl.blur = len(out.effs) > 0 && out.effs[len(out.effs)-1] == eDeleteProof
 		if err := h.w.reopen(wl); err != nil {
-			h.violate("wallet-cannot-be-reopened-after-crash op="+kind, err.Error(), nil)
+			h.violate("wallet-cannot-be-reopened-after-crash err="+strings.TrimSpace(shortErr(err)),
+				fmt.Sprintf("operation %s cut before effect (%v done): LoadWallet on the same directory fails: %v", kind, out.effs, err), nil)
 			h.stop = true
 		}
 	}
@@ -949,7 +958,26 @@ func (h *wHist) expectedRestore(wl *wWal) (uint64, int) {
 	return total, n
 }
 
+// syncTrusted: the mints the wallet trusts, as the wallet itself reports them (an operation that failed
+// or was cut may have added a mint), in index order.
+func (h *wHist) syncTrusted(wl *wWal) {
+	if wl.W == nil {
+		return
+	}
+	known := map[string]bool{}
+	for _, u := range wl.W.TrustedMints() {
+		known[u] = true
+	}
+	wl.trusted = nil
+	for _, m := range h.w.mints {
+		if known[m.url] {
+			wl.trusted = append(wl.trusted, m)
+		}
+	}
+}
+
 func (h *wHist) restoreInto(wl *wWal) (string, wOutcome) {
+	h.syncTrusted(wl)
 	dir, err := os.MkdirTemp(h.w.dir, "restored")
 	must(err)
 	must(os.Remove(dir))
@@ -964,6 +992,7 @@ func (h *wHist) restoreInto(wl *wWal) (string, wOutcome) {
 // OpRestore: back up (mnemonic), restore into an empty directory, go on with the restored wallet.
 func (h *wHist) OpRestore(wi int) {
 	wl := h.wal(wi)
+	h.syncTrusted(wl)
 	want, nOut := h.expectedRestore(wl)
 	dir, out := h.restoreInto(wl)
 	h.after("restore", wl, out, false)
@@ -975,6 +1004,7 @@ func (h *wHist) OpRestore(wi int) {
 		which := restoreLabel(wl)
 		wl.gen++
 		wl.cut = false
+		wl.blur = false
 		// the restored wallet holds as spendable what the backed-up wallet had handed out in plain
 		// tokens that are not redeemed yet: from here on only one of the two may spend them. The
 		// harness lets the restored wallet have them (the tokens are never presented again), so that
@@ -1027,6 +1057,7 @@ func restoreLabel(wl *wWal) string {
 // OpCheck: restore into an empty directory, compare with the mint-side truth, throw the copy away.
 func (h *wHist) OpCheck(wi int) {
 	wl := h.wal(wi)
+	h.syncTrusted(wl)
 	want, nOut := h.expectedRestore(wl)
 	dir, out := h.restoreInto(wl)
 	h.after("restore-check", wl, out, false)
